@@ -1,11 +1,13 @@
 (* Main.v -- dispatch of one protocol line to the stream runners *)
-From RW Require Import Base.Bytes Run.Wire Run.RunCodec Run.RunMig.
+From RW Require Import Base.Bytes Run.Wire Run.RunCodec Run.RunMig Run.RunFs.
 Open Scope N_scope.
 
 Definition k_enc : str := [101; 110; 99].   (* "enc" *)
 Definition k_dec : str := [100; 101; 99].   (* "dec" *)
 Definition k_mig : str := [109; 105; 103].  (* "mig" *)
 Definition k_stb : str := [115; 116; 98].   (* "stb" *)
+Definition k_fst : str := [102; 115; 116].  (* "fst" *)
+Definition k_fso : str := [102; 115; 111].  (* "fso" *)
 
 Definition run_line (line : str) : str :=
   match tokens line with
@@ -14,6 +16,8 @@ Definition run_line (line : str) : str :=
       else if str_eqb cmd k_dec then run_dec args
       else if str_eqb cmd k_mig then run_mig args
       else if str_eqb cmd k_stb then run_stb args
+      else if str_eqb cmd k_fst then run_fst args
+      else if str_eqb cmd k_fso then run_fso args
       else s_bad
   | [] => s_bad
   end.
